@@ -205,3 +205,34 @@ Section Steps.
     (forall key', key <> key' -> dget (x mx (fst r)) nm key' = dget (x mx s) nm key').
   Proof. cbn zeta. cbn [do_agg fst snd x with_mx]. split; [apply dget_dset_same|]. intros key' Hk. apply dget_dset_other_key. exact Hk. Qed.
 End Steps.
+
+(** tally() with several arguments: the per-argument store skips a blank value, the combined store keys on the values joined by '|' *)
+Section Tally2.
+  Variable blanks : list bool.
+  Variable AND : bool.
+
+  Theorem tally_arg_step s l i :
+    let d := 100 + Z.of_nat i in let key := tally_text l i in let r := do_agg blanks AND s l (TallyS i) in
+    snd r = true /\
+    (is_blank_text key = true -> fst r = s) /\
+    (is_blank_text key = false ->
+       dget (x mx (fst r)) d key = Some (VI (num_of (dget (x mx s) d key) + 1)) /\
+       (forall key', key <> key' -> dget (x mx (fst r)) d key' = dget (x mx s) d key')).
+  Proof.
+    cbn zeta. cbn [do_agg]. destruct (is_blank_text (tally_text l i)); cbn [fst snd x with_mx].
+    - split; [reflexivity|]. split; [reflexivity|discriminate].
+    - split; [reflexivity|]. split; [discriminate|]. intros _. split; [apply dget_dset_same|].
+      intros key' Hk. apply dget_dset_other_key. exact Hk.
+  Qed.
+
+  Theorem tally_combined_step s l i j :
+    let key := tally_text l i ++ [124] ++ tally_text l j in let r := do_agg blanks AND s l (TallyC i j) in
+    snd r = true /\ dget (x mx (fst r)) 99 key = Some (VI (num_of (dget (x mx s) 99 key) + 1)) /\
+    (forall key', key <> key' -> dget (x mx (fst r)) 99 key' = dget (x mx s) 99 key') /\
+    (forall d key', d <> 99 -> dget (x mx (fst r)) d key' = dget (x mx s) d key').
+  Proof.
+    cbn zeta. cbn [do_agg fst snd x with_mx]. split; [reflexivity|]. split; [apply dget_dset_same|]. split.
+    - intros key' Hk. apply dget_dset_other_key. exact Hk.
+    - intros d key' Hd. apply dget_dset_other_dict. intros E0. apply Hd. symmetry. exact E0.
+  Qed.
+End Tally2.
